@@ -12,21 +12,24 @@ def inst(entry, params=None, grid=None, tiers=("quick", "thorough"), sched=True,
 NO_REPLAY = "no native replay: engine-level stubs and the engine's cooperative scheduler; counterexamples are replayed in the engine's concrete mode, findings are confirmed by native scenario tests"
 SCHED = "goroutines run one at a time and change hands only at blocking points (channel operations, blocked reads, Quiesce/Yield); every choice among runnable goroutines is a symbolic decision; data races inside non-blocking regions are outside"
 def c15():
-    i = [inst("VP_C15_Stall", {"stalled": 1}, {"kind": [0, 1]}, expect_reach=["served"]),
+    i = [inst("VP_C15_Stall", {"stalled": 1}, {"kind": [0, 1, 2]}, expect_reach=["served"]),
          inst("VP_C15_Stall", {"stalled": 2}, {"kind": [0]}, expect_reach=["served"]),
          inst("VP_C15_Stall", {"stalled": 3}, {"kind": [0, 1]}, tiers=("thorough",))]
-    return {"property": "C15", "package": SERVER_PKG, "files": ["../C03/srv_env.go", "../C03/c03_routing.go", "c15_stall.go"], "native_replay": False,
-            "init_allow": SERVER_INIT, "stubs": server_stubs(), "instances": i,
-            "bounds": {"peers": "1-2 (3 thorough) stalled peers followed by one well-behaved peer on the socket server's and the packet server's real Startup + accept loop (the dns server uses the socket server's loop; the http server's per-request goroutines are net/http's)",
-                       "stall_points": "after connect, inside the request line, unterminated headers, between the two requests, inside the second request, a TLS hello on a plain endpoint - symbolic choice per stalled peer",
+    X = [{"target": "crypto/tls.X509KeyPair", "with": P + "vp05SrvX509KeyPair"}, {"target": "crypto/x509.NewCertPool", "with": P + "vp05SrvNewCertPool"},
+         {"target": "(*crypto/x509.CertPool).AppendCertsFromPEM", "with": P + "vp05SrvAppendCertsFromPEM"}]
+    return {"property": "C15", "package": SERVER_PKG, "files": ["../C03/srv_env.go", "../C03/c03_routing.go", "../C05/c05_server.go", "c15_stall.go"], "native_replay": False,
+            "init_allow": SERVER_INIT, "stubs": server_stubs() + X, "instances": i,
+            "bounds": {"peers": "1-2 (3 thorough) stalled peers followed by one well-behaved peer on the socket server's (plain, and TLS with client certificates required: the listener hands out connections whose TLS handshake runs on first use and consumes the peer's hello) and the packet server's real Startup + accept loop (the dns server uses the socket server's loop; the http server's per-request goroutines are net/http's)",
+                       "stall_points": "after connect, inside the request line, unterminated headers, between the two requests, inside the second request, a TLS hello on a plain endpoint; on the TLS endpoint also before and inside the TLS hello - symbolic choice per stalled peer",
                        "schedules": "every schedule at blocking points (symbolic scheduler)"},
             "assumptions": [SCHED, "listener, connections, smux are the contract stubs of harness/C03/srv_env.go; a stalled peer's connection stays open and silent for ever; real time is not modelled", NO_REPLAY]}
 def c02():
     i = [inst("VP_C02_Streams", {"k": 2}, expect_reach=["all-served"]), inst("VP_C02_Streams", {"k": 3}, expect_reach=["all-served"]),
+         inst("VP_C02_Streams", {"k": 2, "burst": 1}, expect_reach=["all-served"]), inst("VP_C02_Streams", {"k": 3, "burst": 1}),
          inst("VP_C02_Streams", {"k": 4}, tiers=("thorough",))]
     return {"property": "C02", "package": SERVER_PKG, "files": ["../C03/srv_env.go", "../C03/c03_routing.go", "c02_streams.go"], "native_replay": False,
             "init_allow": SERVER_INIT, "stubs": server_stubs(), "instances": i,
-            "bounds": {"streams": "2-3 (4 thorough) logical connections offered on one session, to the same or to different channels (symbolic), each handler blocked in PipeData until all have been offered",
+            "bounds": {"streams": "2-3 (4 thorough) logical connections offered on one session, to the same or to different channels (symbolic), each handler blocked in PipeData until all have been offered; offered one at a time (each must be served before the next is offered) and back to back (all queued before any handler runs; each must be negotiated by exactly one handler)",
                        "scope": "accept-loop occupancy in ConnectionHandler.acceptStream only; the client side starts a goroutine per local connection (listener.accept) by construction",
                        "outside": "byte isolation, flow control and progress between streams inside xtaci/smux (its goroutines, windows and buffers cannot be encoded here): the property's statement about bytes never crossing and slow readers is NOT decided"},
             "assumptions": [SCHED, "smux session/stream, PipeData (blocks until released) are stubs", NO_REPLAY]}
@@ -40,7 +43,7 @@ def c14():
                         inst("VP_C14_StreamEnd", {}, expect_reach=["stream-ended"])]}
     return {"property": "C14", "groups": [g1, g2],
             "bounds": {"pipes": "the real PipeData between two in-memory connections: either side closing first, orderly or by reset, after 0-2 (3) chunks of 1-2 arbitrary bytes, the other side having written 0-1 (2) chunks; the caller closes both ends when PipeData returns (as every caller in socketace does); quiescence report = goroutines blocked for ever",
-                       "dead_session": "server accept loop after 0-1 finished logical connections, the session dying with io.ErrClosedPipe / io.EOF / os.ErrClosed / a read error (symbolic): AcceptStream may be called at most twice more and the loop goroutine must end",
+                       "dead_session": "server accept loop after 0-1 finished logical connections, the session dying with io.ErrClosedPipe / io.EOF / os.ErrClosed / a reset / a timeout-class read error / smux.ErrTimeout (symbolic): AcceptStream may be called at most twice more and the loop goroutine must end",
                        "stream_end": "one logical connection through the real muxHandler + PipeData, client stream ending first or target closing first (symbolic): stream and target connection closed, no goroutine besides the accept loop remains",
                        "outside": "file descriptors and CPU time as such, the client-side HandleConnection, N-connection growth is argued from zero residue per connection"},
             "assumptions": [SCHED, "in-memory connections with TCP-like semantics (data then EOF; a Read blocked on a locally closed connection returns an error)", NO_REPLAY]}
@@ -48,9 +51,11 @@ def c17():
     g1 = {"package": STREAMS, "files": ["../C14/c14_pipes.go"], "native_replay": False,
           "instances": [inst("VP_C17_Pipe", {"yield": 1, "reset": 0}, {"closer": [0, 1], "n": [0, 1, 2], "m": [0, 1]}, expect_reach=["close-propagated"]),
                         inst("VP_C17_Pipe", {"yield": 0, "reset": 0}, {"closer": [0, 1], "n": [2], "m": [1]}),
+                        inst("VP_C17_Pipe", {"yield": 1, "reset": 0, "env:SOCKETACE_PIPE_DEBUG": 1}, {"closer": [0, 1], "n": [2], "m": [1]}),
                         inst("VP_C17_Pipe", {"yield": 1, "reset": 0}, {"closer": [0, 1], "n": [3], "m": [2]}, tiers=("thorough",))]}
     return {"property": "C17", "groups": [g1],
-            "bounds": {"pipes": "the real PipeData (the copy loops every logical connection runs through on client and server) between two in-memory connections with TCP-like semantics: the closing side writes 0-2 (3) chunks of 1-2 arbitrary bytes and closes, the other side writes 0-1 (2) chunks; pushes interleaved with the copy goroutines in every schedule",
+            "bounds": {"debug": "the same with SOCKETACE_PIPE_DEBUG=1 (PipeData's payload-dump variant of the copy loops)",
+                       "pipes": "the real PipeData (the copy loops every logical connection runs through on client and server) between two in-memory connections with TCP-like semantics: the closing side writes 0-2 (3) chunks of 1-2 arbitrary bytes and closes, the other side writes 0-1 (2) chunks; pushes interleaved with the copy goroutines in every schedule",
                        "outside": "close handshakes of smux / websocket / DNS carriers themselves, MiB payloads, real timing; data travelling towards the closing side when it closes (not promised by the statement)"},
             "assumptions": [SCHED, "the caller closes both ends when PipeData returns (HandleConnection, multiplexToUpstream)", NO_REPLAY]}
 for pid, f in (("C15", c15), ("C02", c02), ("C14", c14), ("C17", c17)):
